@@ -1213,18 +1213,24 @@ func (p *FunctionalPropertyGenerator) nameMethod() *codegen.Method {
 			jen.Lit(p.PropertyName()),
 		),
 	)
+	body := []jen.Code{nameImpl}
 	if p.hasNaturalLanguageMap {
-		nameImpl = jen.If(
-			jen.Id(codegen.This()).Dot(isLanguageMapMethod).Call(),
-		).Block(
-			jen.Return(
-				jen.Lit(p.PropertyName() + "Map"),
+		body = []jen.Code{
+			jen.Id("name").Op(":=").Lit(p.PropertyName()),
+			jen.If(
+				jen.Id(codegen.This()).Dot(isLanguageMapMethod).Call(),
+			).Block(
+				jen.Id("name").Op("=").Lit(p.PropertyName() + "Map"),
 			),
-		).Else().Block(
-			jen.Return(
-				jen.Lit(p.PropertyName()),
+			jen.If(
+				jen.Len(jen.Id(codegen.This()).Dot(aliasMember)).Op(">").Lit(0),
+			).Block(
+				jen.Return(
+					jen.Id(codegen.This()).Dot(aliasMember).Op("+").Lit(":").Op("+").Id("name"),
+				),
 			),
-		)
+			jen.Return(jen.Id("name")),
+		}
 	}
 	return codegen.NewCommentedValueMethod(
 		p.GetPrivatePackage().Path(),
@@ -1232,9 +1238,7 @@ func (p *FunctionalPropertyGenerator) nameMethod() *codegen.Method {
 		p.StructName(),
 		/*params=*/ nil,
 		[]jen.Code{jen.String()},
-		[]jen.Code{
-			nameImpl,
-		},
+		body,
 		fmt.Sprintf("%s returns the name of this property: %q.", nameMethod, p.PropertyName()),
 	)
 }
